@@ -84,7 +84,8 @@ Section Property.
 
   Lemma source_ok_parts : guard_ok s = true /\ calls_ok s = true.
   Proof.
-    unfold source_ok in Hok. repeat (apply andb_prop in Hok as [Hok ?]). split; assumption.
+    unfold source_ok in Hok. apply andb_prop in Hok as [Hok _]. apply andb_prop in Hok as [Hok _].
+    apply andb_prop in Hok as [Hok _]. apply andb_prop in Hok as [Hg Hc]. split; assumption.
   Qed.
 
   (** every history, any table whose key covers the steps *)
